@@ -494,8 +494,11 @@ class Dict(dict, base.Symbolic, pg_typing.CustomTyping):
     """Symbolic hashing."""
     return base.sym_hash(
         (self.__class__,
-         tuple([(k, base.sym_hash(v)) for k, v in self.sym_items()
-                if v != pg_typing.MISSING_VALUE])))
+         # Equal dicts may differ in key order.
+         tuple(sorted(
+             [(k, base.sym_hash(v)) for k, v in self.sym_items()
+              if v != pg_typing.MISSING_VALUE],
+             key=lambda kv: base.dict_key_order(kv[0])))))
 
   def _sym_getattr(  # pytype: disable=signature-mismatch  # overriding-parameter-type-checks
       self, key: Union[str, int]) -> Any:
